@@ -87,7 +87,11 @@ def render_nexus(doc):
             L += ["BEGIN CHARACTERS;"]
             if b["title"]:
                 L += ["    TITLE %s;" % b["title"]]
-            L += ["    DIMENSIONS NCHAR=%d;" % ncol, "    FORMAT DATATYPE=DNA GAP=- MISSING=?;", "    MATRIX"]
+            if b.get("type", "dna") == "standard":
+                fmtline = '    FORMAT DATATYPE=STANDARD SYMBOLS="01" GAP=- MISSING=?;'
+            else:
+                fmtline = "    FORMAT DATATYPE=DNA GAP=- MISSING=?;"
+            L += ["    DIMENSIONS NCHAR=%d;" % ncol, fmtline, "    MATRIX"]
             for row in b["rows"]:
                 L += ["        %s    %s" % (row["lab"], row["seq"])]
             L += ["    ;", "END;", ""]
@@ -161,12 +165,15 @@ def render_nexml(doc):
         if b["kind"] == "chars":
             nc += 1
             ncol = len(b["rows"][0]["seq"]) if b["rows"] else 0
-            L += ['    <characters id="chars%d"%s otus="tax1" xsi:type="nex:DnaSeqs">' % (nc, (' label="%s"' % xml_esc(b["title"])) if b["title"] else ""),
+            std = b.get("type", "dna") == "standard"
+            L += ['    <characters id="chars%d"%s otus="tax1" xsi:type="nex:%s">' % (nc, (' label="%s"' % xml_esc(b["title"])) if b["title"] else "",
+                                                                                    "StandardSeqs" if std else "DnaSeqs"),
                   '        <format>', '            <states id="st%d">' % nc]
-            for sym, sid in (("A", "sA"), ("C", "sC"), ("G", "sG"), ("T", "sT"), ("-", "sgap")):
+            syms = (("0", "s0"), ("1", "s1"), ("-", "sgap")) if std else (("A", "sA"), ("C", "sC"), ("G", "sG"), ("T", "sT"), ("-", "sgap"))
+            for sym, sid in syms:
                 L += ['                <state id="%s%d" symbol="%s" />' % (sid, nc, sym)]
             L += ['                <uncertain_state_set id="smiss%d" symbol="?">' % nc]
-            for sid in ("sA", "sC", "sG", "sT", "sgap"):
+            for sym, sid in syms:
                 L += ['                    <member state="%s%d" />' % (sid, nc)]
             L += ['                </uncertain_state_set>', '            </states>']
             for k in range(ncol):
@@ -365,12 +372,14 @@ def random_doc(rng):
         ns = rng.choice([0, 1, 2, 3, 5])
         blocks.append({"kind": "trees", "title": "" if rng.random() < 0.5 else "tb%d" % b, "translate": rng.random() < 0.4,
                        "lead": comments(0.3), "stmts": [stmt(b, i) for i in range(1, ns + 1)]})
-    nchar = rng.choice([0, 0, 1, 2])
+    nchar = rng.choice([0, 1, 2, 3])
     for k in range(nchar):
         ncol = rng.randint(2, 6)
-        rows = [{"lab": lab, "seq": "".join(rng.choice("ACGT-?") for _ in range(ncol))} for lab in taxa]
+        ctype = "standard" if rng.random() < 0.4 else "dna"
+        alpha = "01-?" if ctype == "standard" else "ACGT-?"
+        rows = [{"lab": lab, "seq": "".join(rng.choice(alpha) for _ in range(ncol))} for lab in taxa]
         at = rng.randint(0, len(blocks))
-        blocks.insert(at, {"kind": "chars", "title": "cm%d" % (k + 1), "rows": rows})
+        blocks.insert(at, {"kind": "chars", "title": "cm%d" % (k + 1), "type": ctype, "rows": rows})
         if rng.random() < 0.6:
             specs = [("every", "ALL"), ("first", "1-2"), ("rest", "2-."), ("one", "1"), ("two", "1 2")]
             rng.shuffle(specs)
